@@ -8,6 +8,7 @@ CONSTANTS MaxLen, Chains, Nums, Ics, Names, Alts, Kinds, RNames, WithModel, With
 VARIABLES s
 CS_None == {{}}
 CS_AB == {{}, {"A"}, {"B"}, {"A", "B"}}
+CS_Aa == {{}, {"A"}, {"a"}, {"A", "a"}}      \* chain identifiers are case-sensitive single characters
 AtomRecs == [k : Kinds, ch : Chains, num : Nums, ic : Ics, rn : RNames, nm : Names, alt : Alts]
 Recs == AtomRecs \cup {[k |-> "TER"]}
           \cup (IF WithModel THEN {[k |-> "MODEL", m |-> 2]} ELSE {})
